@@ -939,12 +939,15 @@ def run_check(mod, tier, seed, only_relations=None):
             disagreements += len(abad)
             # ---- violations proper: holds = false on the implementation's output
             reported = set()
+            unlisted = 0   # failing cases that no known-findings entry covers
             for i in sorted(hbad):
                 sig0 = rel.signature(inputs[i], obs[i])
+                kf = match_known(prop, rel, sig0)
+                if not kf:
+                    unlisted += 1
                 if sig0 in reported or len(reported) >= 6:
                     continue
                 reported.add(sig0)
-                kf = match_known(prop, rel, sig0)
                 if kf:
                     if kf["id"] not in known_seen:
                         known_seen.append(kf["id"])
@@ -959,7 +962,10 @@ def run_check(mod, tier, seed, only_relations=None):
                 path = write_replay(prop, rel, small, so[0], st[0], "property-fails",
                                     "holds=false on the implementation's output", workdir)
                 violations.append((path, ""))
-            if not abad and not hbad:
+            rel_stats[rel.name]["holds_false_listed_as_known"] = len(hbad) - unlisted
+            if not abad and not unlisted:
+                # every case agrees with the model, and every case on which the property fails is a
+                # recorded known finding (known_findings.json, status known): reported above, not an alarm
                 rel_ok += 1
             elif abad and not hbad:
                 i = min(abad)
